@@ -324,13 +324,28 @@ where
     ) -> Result<(), Self::DispositionError> {
         // sorting before filtering may be more cache/branch-prediction friendly?
         delivery_infos.sort_by_key(|left| left.delivery_id);
+        // Looking a delivery up and recording its new state is one critical section: a delivery
+        // that the sender settles in between must not be put back into the unsettled map
         {
-            let reader = self.unsettled.read();
+            let mut lock = self.unsettled.write();
             delivery_infos.retain(|info| {
-                reader
-                    .as_ref()
-                    .map(|m| m.contains_key(&info.delivery_tag))
-                    .unwrap_or(false)
+                let settled = settled.unwrap_or(matches!(
+                    info.rcv_settle_mode
+                        .as_ref()
+                        .unwrap_or(&self.rcv_settle_mode),
+                    ReceiverSettleMode::First
+                ));
+                match lock.as_mut() {
+                    Some(map) if settled => map.swap_remove(&info.delivery_tag).is_some(),
+                    Some(map) => match map.get_mut(&info.delivery_tag) {
+                        Some(entry) => {
+                            *entry = Some(state.clone());
+                            true
+                        }
+                        None => false,
+                    },
+                    None => false,
+                }
             });
         }
         #[cfg(fe2o3_amqp_verif)]
@@ -502,20 +517,7 @@ impl<T> ReceiverLink<T> {
             }
         });
 
-        // TODO: Individually checking whether a delivery is already dropped is probably too heavy?
-        if settled {
-            let mut lock = self.unsettled.write();
-            for info in consecutive_infos {
-                lock.as_mut()
-                    .and_then(|map| map.swap_remove(&info.delivery_tag));
-            }
-        } else {
-            let mut lock = self.unsettled.write();
-            for info in consecutive_infos {
-                lock.get_or_insert(OrderedMap::new())
-                    .insert(info.delivery_tag.clone(), Some(state.clone()));
-            }
-        }
+        // The unsettled map has been brought up to date by `dispose_all`
 
         let disposition = Disposition {
             role: Role::Receiver,
